@@ -185,3 +185,25 @@ func H_C08_Sequence() {
 	rt.Assert(rt.And(wf(ia), norm(ia)), "C08.sequence.intersect")
 	rt.Assert(wf(a), "C08.sequence.receiver")
 }
+
+// H_C08_EmptyOperand: a well-formed receiver that is not normalised (parallel edges, repeated targets) merged with an
+// empty list (or an empty list merged with it): the merging operations still return a normalised result.
+func H_C08_EmptyOperand() {
+	a := mkList("a", 1, 2, 2, 2, 1, 1)
+	rt.Assume(wf(a))
+	empty := sbom.NewNodeList()
+	switch rt.NondetChoice("op", 4) {
+	case 0:
+		a.Add(empty)
+		rt.Assert(rt.And(wf(a), norm(a)), "C08.empty.add")
+	case 1:
+		r := a.Union(empty)
+		rt.Assert(rt.And(wf(r), norm(r)), "C08.empty.union")
+	case 2:
+		r := empty.Union(a)
+		rt.Assert(rt.And(wf(r), norm(r)), "C08.empty.union.left")
+	case 3:
+		empty.Add(a)
+		rt.Assert(rt.And(wf(empty), norm(empty)), "C08.empty.add.left")
+	}
+}
